@@ -246,6 +246,12 @@ def ob_scope(kind: int, depth: int, g: int, l: int, gb: int,
     except KeyError:
         raised = "keyerror"  # del of an absent unregistered variable inside the body
     after = snapshot(env, [key, other])
+    if raised == "keyerror" and depth == 1:
+        # `del env[key]` legitimately raises KeyError only when the variable is stored in neither layer
+        # (an overlay value cannot be deleted) and is not a registered variable
+        stored = key in glob0 or key in loc0 or s1 is not None
+        if not (b1 == "delA" and not stored):
+            return viol("exit-raises-keyerror", lambda: f"pre={pre} swap={s1!r} overlay={o1!r} body={b1}: KeyError escaped although the variable existed")
     # ---- inside-scope visibility: first snapshot of each level vs the model ----
     # level 1 inside view
     inside1 = log[0][1]
